@@ -24,12 +24,12 @@ REQUIRED = ['hist_length', 'sample_individuals', 'no_record_after_stop', 'record
             'at_most_one_event', 'event_is_last', 'times_consecutive', 'within_tmax', 'censored_outcome_zero',
             'plan_all', 'plan_none', 'plan_natural', 'plan_custom', 'plan_custom_on_record',
             'lag_first_step', 'lag_prev_step', 'lag_prev_record', 'lowmem_one', 'lowmem_eq_last_of_full',
-            'lowmem_uids', 'fit_rejects_iff', 'lag_chain_forward_counterexample']
+            'lowmem_uids', 'fit_rejects_iff', 'lag_prev_chain', 'lag_order_irrelevant']
 RULE = ('person-period data sets generated here (id, t_in/t_out, binary time-varying L, L2, continuous W, exposure A, '
         'outcome Y, drop-out, lag columns, optional integer weights); nuisance models fitted by zEpid itself; every '
         'cell of plan {all, none, natural, custom rule from the Cond grammar} x covariate models {none, L, L+W '
         'continuous, L+L2 with labels against call order} x censoring model {no, yes} x lags {none, first order, '
-        'second-order chain} is run with random sample size 1..200, t_max 1..6 or None, recode strings from the '
+        'second-order chain in both listing orders} is run with random sample size 1..200, t_max 1..6 or None, recode strings from the '
         'Assign grammar, np.random draws or pinned draws, and both memory modes with the same seed. distinct = '
         'distinct (cell, data seed, np seed, sample, t_max); non-trivial = at least one history stops before t_max '
         'and at least one reaches it')
@@ -45,7 +45,6 @@ ASSUMPTIONS = ['statsmodels results.predict(frame) returns one probability in [0
 NAMES = ['A', 'Y', 't_in', 't_out', 'uncensored', 'L', 'L2', 'W', 'A_l1', 'A_l2', 'L_l1', 'W0', 'cumA', 't_sq', 'cumL']
 CID = {n: i for i, n in enumerate(NAMES)}
 BASECOLS = [n for n in NAMES if n != 'uncensored']
-FINDING_SIG = {'class': 'MonteCarloGFormula', 'lags': 'chain-listed-first-order-first'}
 
 
 # --------------------------------------------------------------------------- grammar (shared with the Lean model)
@@ -564,13 +563,6 @@ def run_case(spec, drv):
         lags = [(k, v) for k, v in spec['lags']]
         base = df.sort_values(['id', 't_out']).groupby('id').head(1).set_index('id')
         ok_lag0 = ok_lag = True
-        bad_chain = False
-        targets_before = set()
-        chain_sources = set()
-        for k, v in lags:
-            if k in targets_before:
-                chain_sources.add((k, v))
-            targets_before.add(v)
         for u, gdf in groups.items():
             steps = per.get(u, {})
             bid = gdf['id'].iloc[0]
@@ -595,17 +587,10 @@ def run_case(spec, drv):
                             if row[v] != prow[k]:
                                 msg = 'uid %d interval %d call %s: %s=%g but %s was %g in interval %d' % (
                                     u, s, p, v, row[v], k, prow[k], s - 1)
-                                if (k, v) in chain_sources:
-                                    bad_chain = True
-                                    note('chain', msg)
-                                else:
-                                    ok_lag = False
-                                    note('lag', msg)
+                                ok_lag = False
+                                note('lag', msg)
         D(ok_lag0, 'lag columns hold the baseline values in the first interval', key='lag0')
         D(ok_lag, 'every lag column holds the previous interval\'s value whenever a model predicts', key='lag')
-        if chain_sources:
-            D(not bad_chain, 'chained lags: the second-order lag holds the first-order lag\'s previous value',
-              FINDING_SIG, key='chain')
     # ---- hook-free lag check on the output alone: under the rule g['A_l1'] == 1 with A lagged into A_l1, the
     #      exposure of interval i must repeat the exposure of interval i-1
     if spec['plan'] == 'custom' and spec['rule'] == FIXED_RULES[0] and spec['lags'] and \
@@ -704,6 +689,7 @@ LAGSETS = {
     'none': None,
     'first': [['A', 'A_l1'], ['L', 'L_l1']],
     'chain': [['A_l1', 'A_l2'], ['A', 'A_l1'], ['L', 'L_l1']],   # second-order lag listed before the first-order one
+    'chainfwd': [['A', 'A_l1'], ['A_l1', 'A_l2'], ['L', 'L_l1']],  # first-order lag listed first: order must not matter
 }
 RECODES = [
     dict(),
@@ -773,15 +759,7 @@ def run(chk, drv, rng, tier):
     # extra custom rules (the rule grammar is the largest part of the input space)
     for j in range(24 if tier == 'quick' else 300):
         covs = list(COVSETS)[j % 4]
-        spec = random_spec(rng, 'custom', covs, bool(j % 2), ['none', 'first', 'chain'][j % 3], tier, j)
-        feed(chk, spec, run_case(spec, drv))
-    # the lag trap: a first-order lag listed before the second-order lag built on it (dict order)
-    for j in range(2 if tier == 'quick' else 8):
-        spec = random_spec(rng, ['natural', 'custom'][j % 2], 'L', bool(j % 2), 'first', tier, 0)
-        spec['lags'] = [['A', 'A_l1'], ['A_l1', 'A_l2'], ['L', 'L_l1']]
-        spec['lagset'] = 'chain-forward'
-        spec['sample'] = max(spec['sample'], 20)
-        spec['tmax'] = 5
+        spec = random_spec(rng, 'custom', covs, bool(j % 2), ['none', 'first', 'chain', 'chainfwd'][j % 4], tier, j)
         feed(chk, spec, run_case(spec, drv))
     # information only (outside the documented domain t_max : int): a non-integer t_max never marks the last
     # iteration, so low_memory drops everyone who survives
